@@ -7,7 +7,8 @@ package main
 //	agg counter <hist>                       MatchCounter, dump after every prefix
 //	agg subkey  <hist>                       SubKeyCounter, dump after every prefix
 //	agg table   <delim> <ops>                TableAggregator; ops = s:<hex> | t:<neg>:<cols>:<rows>:<lo>:<hi>, comma separated
-//	agg num     <keep> <rev> <hist> <qs>     MatchNumerical (bit-exact float64 results) + Analyze
+//	agg num     <keep> <rev> <hist> <qs>     MatchNumerical vs Lean's native Float (+ tolerance vs the exact Rat run)
+//	agg numf / numfv ...                     MatchNumerical vs the software binary64 model (see c07numf64.go)
 //	split <delim> <s> <n>                    stringSplitter.Splitter: n calls of Next with Done after each
 //	acc <opt> <rev> <ops>                    AccumulatingGroup (see c07acc.go)
 //	sorted counter|subkey|table ...          counted / sorted accessors (see c07sorted.go)
@@ -119,6 +120,9 @@ func c07RunTable(delim string, ops []string) string {
 func c07Bits(f float64) string {
 	if f == 0 {
 		return "0"
+	}
+	if math.IsNaN(f) {
+		return "nan"
 	}
 	return strconv.FormatUint(math.Float64bits(f), 10)
 }
@@ -344,7 +348,7 @@ func c07TableCase(r *Rand) string {
 func c07NumStr(r *Rand) string {
 	switch r.Intn(12) {
 	case 0:
-		if r.Chance(1, 12) { // spellings the decimal model declines (answers `unmodelled`)
+		if r.Chance(1, 12) { // exponent / inf / hex / nan spellings (parsed by the model's F64.parseFloat)
 			return Pick(r, []string{"1e3", "inf", "0x10", "nan"})
 		}
 		return Pick(r, []string{"", "z", "1,5", "1 2", "--1", ".", "+", "1.2.3", "xyz", "-", "1-", "1..2", "+-1", "1 "})
